@@ -5,6 +5,9 @@ ops (stateless):
       -> {"rows":[..],"cols":[..],"vals":[..],"counts":[..]}   glued COO triplets (duplicates NOT merged) or {"err":"Uncovered"}
          "nrow": number of row entities, used for the coverage check and the counts vector
   {"op":"update","ndr":k,"active":[..],"old":coo[,"fresh":coo]} -> coo   (fresh defaults to the matrix of the last glue op with "store":true)
+  {"op":"gluecoded","ndr","ndc","nrow","subs"} -> coo   glue with the Mpfa shortcut as coded now
+  {"op":"subgrid","cn":[[..]],"fn":[[..]],"parts":[[..]]} -> {"cells":[[..]],"faces":[[..]]}   subproblems(): subgrid cells / faces_in_subgrid per partition
+  {"op":"cellind","cn","fn","cells":null|[..],"faces":null|[..],"nodes":null|[..]} -> {"cells":[..],"faces":[..]}   cell_ind_for_partial_update
   {"op":"maps","l2g":[..],"nd":k,"probe":[..]} -> {"gidx":[..],"back":[..],"lidx":[..]}
 -/
 import PorepyVerif.Common.Wire
@@ -56,6 +59,29 @@ def step (st : COO) (j : Json) : R (COO × Json) := do
       | .ok f => getCOO f
       | .error _ => pure st)
     pure (st, putCOO (updateRows ndr active old fresh))
+  | "gluecoded" =>
+    -- the accumulation exactly as coded in Mpfa.discretize now (shortcut for a subproblem owning all faces)
+    let ndr ← fNat j "ndr"
+    let ndc ← fNat j "ndc"
+    let nrow ← fNat j "nrow"
+    let subs ← (field j "subs" >>= jList getSub)
+    let counts := (List.range nrow).map (count subs)
+    if counts.any (· == 0) then pure (st, err "Uncovered") else
+    pure (st, putCOO (glueAsCoded nrow ndr ndc subs) [("counts", ofNats counts)])
+  | "subgrid" =>
+    let cn ← fNatss j "cn"
+    let fn ← fNatss j "fn"
+    let parts ← fNatss j "parts"
+    pure (st, obj [("cells", ofList ofNats (parts.map (subCells cn))),
+                   ("faces", ofList ofNats (parts.map (subOwnFaces cn fn)))])
+  | "cellind" =>
+    let cn ← fNatss j "cn"
+    let fn ← fNatss j "fn"
+    let cells ← (field j "cells" >>= jOpt (jList jNat))
+    let faces ← (field j "faces" >>= jOpt (jList jNat))
+    let nodes ← (field j "nodes" >>= jOpt (jList jNat))
+    let r := cellInd cn fn cells faces nodes
+    pure (st, obj [("cells", ofNats r.1), ("faces", ofNats r.2)])
   | "maps" =>
     let l2g ← fNats j "l2g"
     let nd ← fNat j "nd"
